@@ -326,7 +326,8 @@ def c08_1(ctx: Ctx) -> RuleResult:
             # either a zip over the row tables, or a loop over the row positions `range(len(<a row table>))`
             position_loop = (it_[0] == "call" and it_[1] == ("builtin", "range") and len(it_[2]) == 1 and it_[2][0][0] == "call" and it_[2][0][1] == ("builtin", "len")
                              and it_[2][0][2] and it_[2][0][2][0][0] == "attr" and it_[2][0][2][0][2] in (fields["idx"], flip_field, fields["rhs"], iseq_field))
-            if not position_loop and (not all(f"self.{f}" in ztxt for f in needed) or "zip" not in ztxt):
+            # (a table that is not zipped may be read by position: `self._rhs[k]` with k the enumerate index)
+            if not position_loop and (not any(f"self.{f}" in ztxt for f in needed) or "zip" not in ztxt):
                 ok, why = False, f"loop iterates `{ztxt}`, not a zip over the row tables {needed} (nor their positions)"
         if ok:
             def mentions(t, name):
@@ -341,6 +342,25 @@ def c08_1(ctx: Ctx) -> RuleResult:
                     return True
                 return t[0] == "sub" and t[1][0] == "attr" and t[1][2] == name and is_pos(t[2])
 
+            # the right-hand-side table is a list from construction on: a store under `self.<rhs> is None`
+            # (a shared fill procedure whose optional table was bound to the field) can never execute
+            rhs_never_none = not any(
+                isinstance(a, (ast.Assign, ast.AnnAssign)) and a.value is not None
+                and any(isinstance(t_, ast.Attribute) and t_.attr == fields["rhs"] for t_ in (a.targets if isinstance(a, ast.Assign) else [a.target]))
+                and not isinstance(a.value, (ast.List, ast.ListComp))
+                for g in nc.methods.values() for a in nodes_in(g, (ast.Assign, ast.AnnAssign)))
+
+            def dead(n):
+                from ..util import path_condition
+
+                for c, pol in path_condition(ctx, m, n):
+                    if c[0] == "cmp" and c[1] in ("is", "is not") and ("const", None) in (c[2], c[3]) \
+                            and any(o[0] == "attr" and o[2] == fields["rhs"] for o in (c[2], c[3])):
+                        if rhs_never_none and ((c[1] == "is") == bool(pol)):
+                            return True
+                return False
+
+            base_results = []
             for n in stores:
                 vt = X.at(m, n.value)
                 tt = n.targets[0]
@@ -354,6 +374,9 @@ def c08_1(ctx: Ctx) -> RuleResult:
                     same_row = vt[2][0] == "sub" and any(x == row for x in subterms(vt[2][2]))
                     flip_ok = elem_of(ft, flip_field) and same_row
                 else:
+                    if dead(n):
+                        continue
+
                     def values_row(t):
                         return (
                             t[0] == "sub" and any(x[0] == "param" and x[2] == m.positional[1] for x in subterms(t[1]))
@@ -361,9 +384,10 @@ def c08_1(ctx: Ctx) -> RuleResult:
                         )
 
                     if with_rhs:
-                        base_ok = vt[0] == "binop" and vt[1] == "-" and values_row(vt[2]) and elem_of(vt[3], fields["rhs"])
+                        base_results.append(vt[0] == "binop" and vt[1] == "-" and values_row(vt[2]) and elem_of(vt[3], fields["rhs"]))
                     else:
-                        base_ok = values_row(vt) and not mentions(vt, fields["rhs"])
+                        base_results.append(values_row(vt) and not mentions(vt, fields["rhs"]))
+            base_ok = bool(base_results) and all(base_results)
             ok = base_ok and flip_ok
             if not base_ok:
                 why = ("row value is not `values[index] - rhs`" if with_rhs else "Jacobian row is not `values[index]` (no right-hand side)")
